@@ -68,7 +68,9 @@ class Problem:
         ut = '[' + ';'.join(f'({gnat(x)},[' + ';'.join(gnat(c) for c in rs) + '])' for x, rs in sorted(self.unary.items())) + ']'
         theta = gZ(-self.theta_odd) if self.theta_odd is not None else gZ(0)
         return (f'(Pb {rows(self.tag)} {rows(self.dep)} {bt} {ut} [{";".join(gnat(r) for r in self.roots)}] {gZ(self.pen8 * 2)} {gbool(self.nbest <= 1)} '
-                f'{gnat(self.pruning)} {gbool(self.use_beta)} {theta} {gnat(min(self.max_step, 5000))} {gnat(self.nbest)})')
+                f'{gnat(min(self.pruning, self.K + 1))} {gbool(self.use_beta)} {theta} {gnat(min(self.max_step, 5000))} {gnat(self.nbest)})')
+        # (a pruning size beyond the number of tags takes every tag, like any other size >= K: the literal is capped so that option values
+        #  such as 2^31 or UINT_MAX - "no pruning" - stay expressible as a nat literal)
 
 
 def node_deriv(nd):
